@@ -182,9 +182,48 @@ func runC12(r *Run) {
 			}
 		}
 	}
+	c12NestedMaps(r, n/20)
 	c12Schemas(r, n/3)
 	c12Errors(r)
 	c12BigInts(r)
+}
+
+// c12NestedMaps: maps whose values are sets (of uuids or strings; empty or with two and more elements: a
+// one-element set is encoded as its element), alone and inside a row, a condition and a mutation. The
+// library encodes and decodes them although RFC 7047 pairs hold atoms; they are outside the Lean codec
+// model and checked against the round-trip oracle only.
+func c12NestedMaps(r *Run, n int) {
+	rng := r.Rng
+	for i := 0; i < n; i++ {
+		m := ovsdb.OvsMap{GoMap: map[interface{}]interface{}{}}
+		for k := 1 + rng.Intn(3); k > 0; k-- {
+			var elems []interface{}
+			cnt := []int{0, 2, 3}[rng.Intn(3)]
+			for e := 0; e < cnt; e++ {
+				if i%2 == 0 {
+					elems = append(elems, ovsdb.UUID{GoUUID: mkUUID(1000 + 10*k + e)})
+				} else {
+					elems = append(elems, fmt.Sprintf("s%d", 10*k+e))
+				}
+			}
+			var key interface{} = fmt.Sprintf("k%d", k)
+			if rng.Intn(3) == 0 {
+				key = ovsdb.UUID{GoUUID: mkUUID(2000 + k)}
+			}
+			m.GoMap[key] = ovsdb.OvsSet{GoSet: elems}
+		}
+		switch i % 4 {
+		case 0:
+			c12Check(r, "map", m, "")
+		case 1:
+			c12Check(r, "row", ovsdb.Row{"c": m, "n": 1}, "")
+		case 2:
+			c12Check(r, "condition", ovsdb.NewCondition("c", ovsdb.ConditionIncludes, m), "")
+		default:
+			c12Check(r, "mutation", *ovsdb.NewMutation("c", ovsdb.MutateOperationInsert, m), "")
+		}
+		r.Count("nested-map")
+	}
 }
 
 func c12Check(r *Run, kind string, v interface{}, known string) {
